@@ -43,7 +43,8 @@ class C07(P.Property):
         cfg.update(GRID[scheme][ci])
         db = self._c09.gen_db(rng, scheme, fe.id_size(cfg))
         kws = list(db)
-        pool = kws + ["absent1", "absent2", kws[0] + "x", (kws[0][:-1] or "q")]
+        pool = kws + ["absent1", "absent2", (kws[0] + "x")[-32:] if len((kws[0] + "x").encode("utf-8")) <= 32 else "absent3", (kws[0][:-1] or "q")]
+        pool = [w if w and w[0] != "\x00" else "q" + w[1:] for w in pool]
         small = scheme in ("CGKO06.SSE1", "CGKO06.SSE2")
         n = rng.randint(6, 14) if small else rng.randint(10, 40)
         steps = [{"w": rng.choice(pool)} for _ in range(n)]
@@ -66,7 +67,8 @@ class C07(P.Property):
         edb_writes = []
 
         def on_disk(rec):
-            if rec["role"] == "server" and rec["path"].rsplit("/", 1)[-1].startswith("edb"):
+            parts = rec["path"].split("/")
+            if rec["role"] == "server" and len(parts) == 2 and (parts[1] == "edb" or parts[1].startswith("edb.")):
                 edb_writes.append((rec["site"], rec["kind"]))
         run.seam.on_event = on_disk
         try:
